@@ -23,7 +23,8 @@ VARIABLES ws,      \* workspace: object handle -> value token
 vars == <<ws, hist, last>>
 
 Nets  == {"N1", "N2"}
-Circs == {"C1", "C2", "C3"}          \* C3: the components of C1 under the same names with other capacitance / inductance values
+Circs == {"C1", "C2", "C3", "C4", "C5"}   \* siblings: C3 = the components of C1 under the same names with other capacitance / inductance values;
+                                          \* C4 = C2 with other source phases only; C5 = C2 with another waveform and another internal impedance
 Docs  == {"DOCN", "DOCC", "DOCX", "ZPOL"}
 Shared == {"KEEP", "CV", "LV", "WL", "OUTS"}
 Handles == Nets \cup Circs \cup Docs \cup Shared
